@@ -89,6 +89,7 @@ def run_case(case: Dict[str, Any], ctx) -> None:
             o["in"] = ["output" if x == last else x for x in o["in"]]
         prog["outputs"] = ["output" if x == last else x for x in prog["outputs"]]
     m, src = progs.build_module(prog, case["seed"])
+    ctx.sample({"emitted_source": src})
     inputs = progs.make_inputs(prog, case["seed"] + 5)
     torch._dynamo.utils.counters.clear()
     try:
